@@ -1,6 +1,7 @@
 (** C08: the code's formulas (Model/SemiringCode.v) coincide with the carrier operations on the
-    carriers, hence satisfy the semiring laws -- except ViterbiSemiring.star at exactly 0 (F2),
-    which returns a solution of y = 1 + x*y that is not the least one. *)
+    carriers, hence satisfy the semiring laws.  The formula ViterbiSemiring.star had before the
+    repair of F2 ([viterbi_star_old], x >= 0 -> inf) is refuted at exactly 0: it returns a solution
+    of y = 1 + x*y that is not the least one. *)
 From Coq Require Import QArith Qcanon Lqa Bool List Ring_theory.
 Import ListNotations.
 Require Import Fggs.Model.Semiring Fggs.Model.EReal Fggs.Model.Trop Fggs.Model.SemiringCode.
@@ -107,30 +108,30 @@ Proof. reflexivity. Qed.
 Lemma viterbi_from_int_ok n : viterbi_from_int n = xr_of_trop (from_nat trop_ops n).
 Proof. rewrite trop_from_nat. destruct n; reflexivity. Qed.
 
-(** the code's star agrees with the least-solution star everywhere except at exactly 0 *)
-Theorem viterbi_star_ok x : x <> TFin 0 -> viterbi_star (xr_of_trop x) = xr_of_trop (tstar x).
+(** the OLD star agrees with the least-solution star everywhere except at exactly 0 *)
+Theorem viterbi_star_old_ok x : x <> TFin 0 -> viterbi_star_old (xr_of_trop x) = xr_of_trop (tstar x).
 Proof.
   destruct x as [|a|]; try reflexivity. intros Hne.
-  unfold viterbi_star. cbn [xr_of_trop xge xle tstar]. change (this 0) with 0%Q.
+  unfold viterbi_star_old. cbn [xr_of_trop xge xle tstar]. change (this 0) with 0%Q.
   destruct (Qle_bool 0 (this a)) eqn:E1; destruct (Qle_bool (this a) 0) eqn:E2; try reflexivity.
   - apply Qle_bool_iff in E1. apply Qle_bool_iff in E2. exfalso. apply Hne. f_equal.
     apply Qc_is_canon. change (this 0) with 0%Q. lra.
   - apply Qle_bool_false in E1. apply Qle_bool_false in E2. lra.
 Qed.
 
-Definition viterbi_star_guard (x : trop) : bool := negb (teqb x (TFin 0)).
-Lemma viterbi_star_guard_ok x : viterbi_star_guard x = true -> x <> TFin 0.
+Definition viterbi_star_old_guard (x : trop) : bool := negb (teqb x (TFin 0)).
+Lemma viterbi_star_old_guard_ok x : viterbi_star_old_guard x = true -> x <> TFin 0.
 Proof. intros H ->. discriminate H. Qed.
-Example viterbi_star_guard_ex :
-  viterbi_star_guard (TFin (-(1))) = true /\ viterbi_star_guard (TFin 1) = true /\
-  viterbi_star_guard NInf = true /\ viterbi_star_guard TPInf = true.
+Example viterbi_star_old_guard_ex :
+  viterbi_star_old_guard (TFin (-(1))) = true /\ viterbi_star_old_guard (TFin 1) = true /\
+  viterbi_star_old_guard NInf = true /\ viterbi_star_old_guard TPInf = true.
 Proof. repeat split. Qed.
 
-(** F2: at x = 0 the code returns +inf.  +inf *is* a solution of y = max(0, x + y), which is
+(** F2 (repaired in /repo by d2ec7af): at x = 0 the old formula returns +inf.  +inf *is* a solution of y = max(0, x + y), which is
     why test_star passes, but the least solution is 0 *)
-Theorem viterbi_star_zero_refuted :
+Theorem viterbi_star_old_zero_refuted :
   exists x y : trop,
-    viterbi_star (xr_of_trop x) = xr_of_trop y /\
+    viterbi_star_old (xr_of_trop x) = xr_of_trop y /\
     y = add trop_ops (one trop_ops) (mul trop_ops x y) /\
     y <> star trop_ops x /\
     ~ (forall z, z = add trop_ops (one trop_ops) (mul trop_ops x z) -> le trop_ops y z).
@@ -140,11 +141,11 @@ Proof.
   - intros H. exact (H (TFin 0) eq_refl).
 Qed.
 
-(** the recommended repair, where(x > 0, inf, 0.), is the least-solution star everywhere *)
-Theorem viterbi_star_fixed_ok x : viterbi_star_fixed (xr_of_trop x) = xr_of_trop (tstar x).
+(** the code as it is now, where(x > 0, inf, 0.), is the least-solution star everywhere *)
+Theorem viterbi_star_ok x : viterbi_star (xr_of_trop x) = xr_of_trop (tstar x).
 Proof.
   destruct x as [|a|]; try reflexivity.
-  unfold viterbi_star_fixed. cbn [xr_of_trop xgt xlt xle tstar]. change (this 0) with 0%Q.
+  unfold viterbi_star. cbn [xr_of_trop xgt xlt xle tstar]. change (this 0) with 0%Q.
   destruct (Qle_bool (this a) 0); reflexivity.
 Qed.
 
@@ -361,17 +362,17 @@ Definition log_code_ops (c : bool) (hi : xr) : sr_ops ereal :=
      mul := fun x y => back_e (log_mul (xr_of_ereal x) (xr_of_ereal y));
      star := fun x => back_e (log_star c hi (xr_of_ereal x));
      le := ele |}.
+Definition viterbi_old_code_ops : sr_ops trop :=
+  {| zero := back_t (viterbi_from_int 0); one := back_t (viterbi_from_int 1);
+     add := fun x y => back_t (viterbi_add (xr_of_trop x) (xr_of_trop y));
+     mul := fun x y => back_t (viterbi_mul (xr_of_trop x) (xr_of_trop y));
+     star := fun x => back_t (viterbi_star_old (xr_of_trop x));
+     le := tle |}.
 Definition viterbi_code_ops : sr_ops trop :=
   {| zero := back_t (viterbi_from_int 0); one := back_t (viterbi_from_int 1);
      add := fun x y => back_t (viterbi_add (xr_of_trop x) (xr_of_trop y));
      mul := fun x y => back_t (viterbi_mul (xr_of_trop x) (xr_of_trop y));
      star := fun x => back_t (viterbi_star (xr_of_trop x));
-     le := tle |}.
-Definition viterbi_fixed_code_ops : sr_ops trop :=
-  {| zero := back_t (viterbi_from_int 0); one := back_t (viterbi_from_int 1);
-     add := fun x y => back_t (viterbi_add (xr_of_trop x) (xr_of_trop y));
-     mul := fun x y => back_t (viterbi_mul (xr_of_trop x) (xr_of_trop y));
-     star := fun x => back_t (viterbi_star_fixed (xr_of_trop x));
      le := tle |}.
 Definition bool_code_ops : sr_ops bool :=
   {| zero := boolc_from_int 0; one := boolc_from_int 1; add := boolc_add; mul := boolc_mul;
@@ -395,18 +396,18 @@ Proof.
   - rewrite log_mul_ok. apply back_e_emb.
   - reflexivity.
 Qed.
-Lemma viterbi_code_ext : ops_ext viterbi_code_ops trop_ops.
+Lemma viterbi_old_code_ext : ops_ext viterbi_old_code_ops trop_ops.
 Proof.
-  constructor; cbn [zero one add mul le viterbi_code_ops trop_ops]; intros.
+  constructor; cbn [zero one add mul le viterbi_old_code_ops trop_ops]; intros.
   - reflexivity.
   - reflexivity.
   - rewrite viterbi_add_ok. apply back_t_emb.
   - rewrite viterbi_mul_ok. apply back_t_emb.
   - reflexivity.
 Qed.
-Lemma viterbi_fixed_code_ext : ops_ext viterbi_fixed_code_ops trop_ops.
+Lemma viterbi_code_ext : ops_ext viterbi_code_ops trop_ops.
 Proof.
-  constructor; cbn [zero one add mul le viterbi_fixed_code_ops trop_ops]; intros.
+  constructor; cbn [zero one add mul le viterbi_code_ops trop_ops]; intros.
   - reflexivity.
   - reflexivity.
   - rewrite viterbi_add_ok. apply back_t_emb.
@@ -436,23 +437,23 @@ Qed.
 Theorem bool_code_laws : sr_ring bool_code_ops /\ sr_ordered bool_code_ops /\ sr_star bool_code_ops.
 Proof. split; [exact bool_ring | split; [exact bool_ordered | exact bool_star]]. Qed.
 
-(** ViterbiSemiring: ring and order laws hold, star is a solution ... *)
-Theorem viterbi_code_laws_partial :
-  sr_ring viterbi_code_ops /\ sr_ordered viterbi_code_ops /\
-  (forall a, star viterbi_code_ops a =
-             add viterbi_code_ops (one viterbi_code_ops) (mul viterbi_code_ops a (star viterbi_code_ops a))) /\
-  (forall a b x, viterbi_star_guard a = true ->
-     le viterbi_code_ops (add viterbi_code_ops (mul viterbi_code_ops a x) b) x ->
-     le viterbi_code_ops (mul viterbi_code_ops (star viterbi_code_ops a) b) x).
+(** the old ViterbiSemiring formulas: ring and order laws hold, star is a solution ... *)
+Theorem viterbi_old_code_laws_partial :
+  sr_ring viterbi_old_code_ops /\ sr_ordered viterbi_old_code_ops /\
+  (forall a, star viterbi_old_code_ops a =
+             add viterbi_old_code_ops (one viterbi_old_code_ops) (mul viterbi_old_code_ops a (star viterbi_old_code_ops a))) /\
+  (forall a b x, viterbi_star_old_guard a = true ->
+     le viterbi_old_code_ops (add viterbi_old_code_ops (mul viterbi_old_code_ops a x) b) x ->
+     le viterbi_old_code_ops (mul viterbi_old_code_ops (star viterbi_old_code_ops a) b) x).
 Proof.
-  pose proof viterbi_code_ext as E. split; [|split; [|split]].
+  pose proof viterbi_old_code_ext as E. split; [|split; [|split]].
   - apply (ring_transfer _ _ E), trop_ring.
   - apply (ordered_transfer _ _ E), trop_ordered.
-  - intros a. cbn [zero one add mul star viterbi_code_ops].
-    assert (Hs : exists s, viterbi_star (xr_of_trop a) = xr_of_trop s /\ s = tmax (TFin 0) (tplus a s)).
+  - intros a. cbn [zero one add mul star viterbi_old_code_ops].
+    assert (Hs : exists s, viterbi_star_old (xr_of_trop a) = xr_of_trop s /\ s = tmax (TFin 0) (tplus a s)).
     { destruct a as [|a|].
       - exists (TFin 0). split; reflexivity.
-      - unfold viterbi_star. cbn [xr_of_trop xge xle]. destruct (Qle_bool (this 0) (this a)) eqn:E1.
+      - unfold viterbi_star_old. cbn [xr_of_trop xge xle]. destruct (Qle_bool (this 0) (this a)) eqn:E1.
         + exists TPInf. split; reflexivity.
         + exists (TFin 0). split; [reflexivity|]. cbn [tplus tmax].
           apply Qle_bool_false in E1. change (this 0) with 0%Q in E1.
@@ -465,27 +466,27 @@ Proof.
     rewrite viterbi_mul_ok, back_t_emb.
     change (xr_of_trop (TFin 0)) with (xr_of_trop (TFin 0)).
     rewrite viterbi_add_ok, back_t_emb. exact Hfix.
-  - intros a b x G. apply viterbi_star_guard_ok in G.
-    cbn [add mul star le viterbi_code_ops].
-    rewrite (viterbi_star_ok a G).
+  - intros a b x G. apply viterbi_star_old_guard_ok in G.
+    cbn [add mul star le viterbi_old_code_ops].
+    rewrite (viterbi_star_old_ok a G).
     repeat rewrite ?viterbi_mul_ok, ?viterbi_add_ok, ?back_t_emb.
     apply tstar_ind.
 Qed.
-(** ... but not the least one: the full star law fails for the code as it stands (F2) *)
-Theorem viterbi_code_star_refuted : ~ sr_star viterbi_code_ops.
+(** ... but not the least one: the full star law fails for the old formula (F2) *)
+Theorem viterbi_old_code_star_refuted : ~ sr_star viterbi_old_code_ops.
 Proof.
   intros St. pose proof (star_ind _ St (TFin 0) (TFin 0) (TFin 0)) as H.
   cbn in H. apply H. discriminate.
 Qed.
-(** with the recommended one-character repair the full law holds *)
-Theorem viterbi_fixed_code_laws :
-  sr_ring viterbi_fixed_code_ops /\ sr_ordered viterbi_fixed_code_ops /\ sr_star viterbi_fixed_code_ops.
+(** ViterbiSemiring as it is now: the full set of laws *)
+Theorem viterbi_code_laws :
+  sr_ring viterbi_code_ops /\ sr_ordered viterbi_code_ops /\ sr_star viterbi_code_ops.
 Proof.
-  pose proof viterbi_fixed_code_ext as E. split; [|split].
+  pose proof viterbi_code_ext as E. split; [|split].
   - apply (ring_transfer _ _ E), trop_ring.
   - apply (ordered_transfer _ _ E), trop_ordered.
   - apply (star_transfer _ _ E); [|apply trop_star].
-    intros x. cbn [star viterbi_fixed_code_ops trop_ops]. rewrite viterbi_star_fixed_ok. apply back_t_emb.
+    intros x. cbn [star viterbi_code_ops trop_ops]. rewrite viterbi_star_ok. apply back_t_emb.
 Qed.
 
 (** sub: the code's formulas satisfy sub(x, y) + y = x whenever y <= x *)
